@@ -1,16 +1,24 @@
 use crate::core::Ctx;
 
 pub mod c01;
+pub mod c02;
+pub mod c07;
 pub mod c08;
+pub mod c13;
 pub mod c15;
 pub mod c17;
+pub mod c20;
 
 pub fn lookup(prop: &str) -> Option<fn(&Ctx)> {
     Some(match prop {
         "C01" => c01::run,
+        "C02" => c02::run,
+        "C07" => c07::run,
         "C08" => c08::run,
+        "C13" => c13::run,
         "C15" => c15::run,
         "C17" => c17::run,
+        "C20" => c20::run,
         _ => return None,
     })
 }
@@ -24,6 +32,7 @@ pub fn one(args: &[String]) -> i32 {
             let d = args.get(2).and_then(|s| s.parse().ok()).unwrap_or(1);
             c01::one_pump(name, d)
         }
+        Some("c02") => c02::zygote(),
         Some("compile") => {
             // mc --one compile <scss|sass|css> <source> [compressed]
             let syn = match args.get(1).map(|s| s.as_str()) {
